@@ -181,6 +181,8 @@ struct ares_query {
   size_t        timeouts;   /* number of timeouts we saw for this request */
   ares_bool_t   no_retries; /* do not perform any additional retries, this is
                              * set when a query is to be canceled */
+  ares_bool_t   cancelled;  /* taken by ares_cancel(): whatever ends this query
+                             * from now on, it completes as ARES_ECANCELLED */
 };
 
 struct apattern {
